@@ -28,28 +28,7 @@ pub struct Variant {
     pub touched_shared_or_root: bool,
 }
 
-fn refs_of(s: &Step) -> Vec<usize> {
-    match s {
-        Step::Apply(a) => a.args.clone(),
-        Step::ProbeSole { h } | Step::Flag { h, .. } | Step::Backward { h, .. } | Step::ReadGrad { h } | Step::ClearGrad { h, .. } | Step::Clone { h } | Step::Drop { h } => vec![*h],
-        Step::Rebind { target, spec } => {
-            let mut v = spec.args.clone();
-            v.push(*target);
-            v
-        }
-        Step::IfGt { cond, target, then_, else_, .. } => {
-            let mut v = then_.args.clone();
-            if let Some(e) = else_ {
-                v.extend(e.args.iter())
-            }
-            v.push(*cond);
-            v.push(*target);
-            v
-        }
-        Step::Update { params, .. } => params.clone(),
-        Step::Leaf { .. } => vec![],
-    }
-}
+use crate::interp::step_refs as refs_of;
 
 pub fn make_variant(base: &History, choices: &[u8]) -> Variant {
     let mut ci = 0usize;
@@ -207,6 +186,9 @@ impl Case12 {
         let mut q = Exec::new();
         for (i, s) in v.hist.steps.iter().enumerate() {
             if let Err(pn) = q.step(s) {
+                if is_discard(&pn) {
+                    return e("discard", pn);
+                }
                 return e("variant-panicked", format!("the variant with clones/drops/re-binding panicked at step {} ({:?}) although the base program ran: {}\nvariant: {}", i, s, pn, hist_sample(&v.hist)));
             }
         }
